@@ -7,4 +7,6 @@ pub mod tape;
 #[macro_use]
 pub mod runner;
 pub mod refnum;
+pub mod cbor;
+pub mod gen;
 pub mod props;
